@@ -38,3 +38,19 @@ func NewVerif(client kubernetes.Interface, ipsetHandle ipset.Interface, iptableH
 	pm.podInformerOnce.Do(func() {})
 	return pm
 }
+
+type verifNotStartedInformer struct {
+	cache.SharedIndexInformer
+}
+
+func (verifNotStartedInformer) HasSynced() bool { return false }
+
+// NewVerifNotStarted is NewVerif for a daemon that starts while no NetworkPolicy exists: the pod informer has not been started,
+// pods are listed through the client.
+func NewVerifNotStarted(client kubernetes.Interface, ipsetHandle ipset.Interface, iptableHandle utiliptables.Interface, hostName string,
+	podLister corev1Lister.PodLister, namespaceLister corev1Lister.NamespaceLister,
+	policyLister networkingv1Lister.NetworkPolicyLister) *PolicyManager {
+	pm := NewVerif(client, ipsetHandle, iptableHandle, hostName, podLister, namespaceLister, policyLister)
+	pm.podCachedInformer = verifNotStartedInformer{}
+	return pm
+}
